@@ -14,6 +14,7 @@ RULE = ("live runs of all ten optimizer classes over random configurations (elit
         "objective wrapper has seen; alias observation and in-place perturbation of the population; every trace replayed "
         "through the Coq loop model. distinct = configuration incl. seed.")
 THEORIES, TRUSTED, ASSUMPTIONS = _loop.THEORIES, _loop.TRUSTED, _loop.ASSUMPTIONS
+gen = _loop.gen
 
 
 def predicate(tr, rep):
